@@ -15,6 +15,7 @@ def wide_schema():
     """the 'Wide' family, split over several message types so that each stays small"""
     types = {}
     types["Inner"] = [F("x", 1, "sint64"), F("s", 2, "string")]
+    types["Box"] = [F("items", 1, "int32", "repeated"), F("attrs", 2, "map", "map", kkind="string", vkind="int32"), F("n", 3, "int32")]     # a sub-message with containers
     types["Nil"] = []                      # a message type without fields (google.protobuf.Empty-like): only its presence carries information
     types["Node"] = [F("child", 1, "message", msg="Node"), F("kids", 2, "message", "repeated", msg="Node"), F("v", 3, "int32"),
                      F("peer", 4, "message", "optional", msg="Peer")]
@@ -46,7 +47,7 @@ def wide_schema():
                      [F("mk_i32_msg", 40, "map", "map", kkind="int32", vkind="message", msg="Inner")]
     n = iter(range(1, 10000))
     types["TWkt"] = [F("w_" + k, next(n), "wrap", vkind=k) for k in sorted(WRAPS)] + \
-                    [F("ts", 20, "timestamp"), F("dur", 21, "duration"), F("m", 22, "message", msg="Inner"),
+                    [F("ts", 20, "timestamp"), F("dur", 21, "duration"), F("m", 22, "message", msg="Inner"), F("bx", 23, "message", msg="Box"),
                      F("far", 536870911, "int32"), F("mid", 2048, "string")]
     types["TMix"] = [F("a", 1, "int32"), F("b", 2, "string", "optional"), F("c", 3, "message", msg="Inner"),
                      F("d", 4, "sint32", "repeated"), F("e", 5, "enum", "oneof", group="g", enum="E"),
@@ -54,7 +55,8 @@ def wide_schema():
                      F("h", 8, "map", "map", kkind="string", vkind="message", msg="Inner"), F("i", 9, "wrap", vkind="int32"),
                      F("j", 10, "double"), F("k", 11, "message", "repeated", msg="Inner"), F("l", 12, "timestamp"),
                      F("n", 13, "message", msg="Node"), F("z", 14, "message", msg="Nil"), F("zo", 15, "message", "optional", msg="Nil"),
-                     F("zr", 16, "message", "repeated", msg="Nil"), F("g_z", 17, "message", "oneof", group="g", msg="Nil")]
+                     F("zr", 16, "message", "repeated", msg="Nil"), F("g_z", 17, "message", "oneof", group="g", msg="Nil"),
+                     F("bx", 18, "message", msg="Box"), F("g_bx", 19, "message", "oneof", group="g", msg="Box"), F("bxo", 20, "message", "optional", msg="Box")]
     # proto names that are Python keywords / need re-casing: the Python attribute differs from the proto (and JSON) name
     types["TNames"] = [F("from", 1, "string", pyname="from_"), F("in", 2, "int32", pyname="in_"), F("class", 3, "bool", "optional", pyname="class_"),
                        F("lambda", 4, "int64", "repeated", pyname="lambda_"), F("foo_bar", 5, "string"), F("camelCase", 6, "int32", pyname="camel_case"),
